@@ -22,17 +22,178 @@ def decByName : String → Option (List Nat → Nat → Dec)
   | "d16le" => some (utf16ToUnicode false)
   | _ => none
 
+@[inline] def mix (dg : UInt64) (v : Nat) : UInt64 := (dg ^^^ UInt64.ofNat v) * 1099511628211
+
+def hex16 (v : UInt64) : String :=
+  let s := hexNat v.toNat
+  String.ofList (List.replicate (16 - s.length) '0') ++ s
+
+/-- bytes as hex, or as `#<n>:<fnv1a-64>` when there are more than 2048 (as the harness prints them) -/
+def showBytes (bs : List Nat) : String :=
+  if bs.length ≤ 2048 then LA.toHex bs
+  else s!"#{bs.length}:" ++ hex16 (bs.foldl mix 14695981039346656037)
+
 def showConv : Conv → String
   | .oob => "oob"
   | .lenWrap => "len-wrap"
   | .hang => "hang"
-  | .ok r out => s!"r={r} out={LA.toHex out}"
+  | .ok r out => s!"r={r} out={showBytes out}"
 
 def showApp : AppRes → String
   | .oobRead => "oob-read"
   | .oobWrite i c => s!"oob-write idx={i} cap={c}"
   | .lenWrap => "len-wrap"
-  | .ok r as => s!"r={r} len={as.data.length} cap={as.cap} out={LA.toHex as.data} nul=ok"
+  | .ok r as => s!"r={r} len={as.data.length} cap={as.cap} out={showBytes as.data} nul=ok"
+
+/-- Operand syntax of the protocol: `-` | hex | `@N` (N pattern bytes 'a'+(i%26)) |
+`R<k>:<unithex>:<tailhex|->` (unit repeated k times, then tail). -/
+def parseOperand (s : String) : Option (List Nat) :=
+  if s.startsWith "@" then
+    (s.drop 1).toString.toNat?.map fun n => (List.range n).map fun i => 97 + i % 26
+  else if s.startsWith "R" then
+    match (s.drop 1).toString.splitOn ":" with
+    | [k, u, tl] =>
+      match k.toNat?, LA.parseHex u, LA.parseHex tl with
+      | some k, some u, some tl => some ((List.replicate k u).flatten ++ tl)
+      | _, _, _ => none
+    | _ => none
+  else LA.parseHex s
+
+/-! ### linear-time twins of the model loops
+
+The model functions append to a `List` at every step, which is quadratic in the output length.
+The border families reach 76 KB, so for long inputs the driver runs these `Array`-based twins.
+They are not part of any theorem; `pick` runs both on every mid-sized input and reports a
+disagreement, and both are compared with the C on every run. -/
+
+instance : Inhabited Conv := ⟨.oob⟩
+
+def pick [DecidableEq α] (n : Nat) (slow fast : Unit → α) (bad : α) : α :=
+  if n > 400 then fast ()
+  else if n > 100 then (let a := slow (); if a = fast () then a else bad)
+  else slow ()
+
+structure FStr where
+  alloc : Bool
+  cap : Nat
+  data : Array Nat
+
+def FStr.ofA (as : AStr) : FStr := ⟨as.alloc, as.cap, as.data.toArray⟩
+def FStr.toA (f : FStr) : AStr := ⟨f.alloc, f.cap, f.data.toList⟩
+
+def ensureF (as : FStr) (s : Nat) : FStr :=
+  let e := ensure ⟨as.alloc, as.cap, []⟩ s
+  { as with alloc := e.alloc, cap := e.cap }
+
+partial def unparseGrowF (e : Enc) (lenTm uc : Nat) (as : FStr) : Option FStr :=
+  let room := if as.data.size + e.ts ≤ as.cap then as.cap - e.ts - as.data.size
+    else 18446744073709551616 - (as.data.size + e.ts - as.cap)
+  let bs := unparse e room uc
+  if bs.isEmpty then
+    if as.data.size + e.ts ≤ as.cap then unparseGrowF e lenTm uc (ensureF as (as.cap + lenTm + e.ts)) else none
+  else if as.data.size + bs.length ≤ as.cap then some { as with data := as.data.appendList bs }
+  else none
+
+/-- twin of `appendLoop`; `none`: something other than `.ok` (the caller then asks the model). -/
+partial def appendLoopF (fe te : Enc) (tm : Nat) (xs : List Nat) (len : Nat) (as : FStr) (ret : Int) : Option (Int × FStr) :=
+  match parse fe xs len with
+  | .oob => none
+  | .ret n uc =>
+    if n = 0 then
+      if as.cap ≤ as.data.size then none
+      else if te.ts = 2 ∧ as.cap ≤ as.data.size + 1 then none
+      else some (ret, as)
+    else
+      let ret := if n < 0 then -1 else ret
+      let k := n.natAbs
+      if k ≤ len ∧ 0 < k then
+        match unparseGrowF te ((len - k) * tm) (uc.getD 0) as with
+        | some as' => appendLoopF fe te tm (xs.drop k) (len - k) as' ret
+        | none => none
+      else none
+
+def appendUnicodeF (flag : Nat) (as : AStr) (xs : List Nat) (len : Nat) : AppRes :=
+  let te := toEnc flag
+  let tm := tmOf flag
+  let f := ensureF (FStr.ofA as) (as.data.length + len * tm + te.ts)
+  match appendLoopF (fromEnc flag) te tm xs len f 0 with
+  | some (r, f') => .ok r f'.toA
+  | none => appendUnicode flag as xs len
+
+def runAppend (flag : Nat) (as : AStr) (xs : List Nat) (len : Nat) : AppRes :=
+  pick (len + as.data.length / 8) (fun _ => appendUnicode flag as xs len) (fun _ => appendUnicodeF flag as xs len) .lenWrap
+
+partial def transcodeF (fe te : Enc) (xs : List Nat) (len : Nat) (out : Array Nat) (ret : Int) : Conv :=
+  match parse fe xs len with
+  | .oob => .oob
+  | .ret n uc =>
+    if n = 0 then .ok ret out.toList
+    else
+      let ret := if n < 0 then -1 else ret
+      let k := n.natAbs
+      if k ≤ len ∧ 0 < k then transcodeF fe te (xs.drop k) (len - k) (out.appendList (unparse te 4 (uc.getD 0))) ret
+      else .lenWrap
+
+def runTranscode (fe te : Enc) (xs : List Nat) (len : Nat) : Conv :=
+  pick len (fun _ => transcode fe te xs len [] 0) (fun _ => transcodeF fe te xs len #[] 0) .hang
+
+partial def utf8ToUtf8F (xs : List Nat) (len : Nat) (out : Array Nat) (ret : Int) : Conv :=
+  match utf8ToUnicode xs len with
+  | .oob => .oob
+  | .ret r uc =>
+    if r = 0 then .ok ret out.toList
+    else if 0 < r then
+      let k := r.toNat
+      if k ≤ len ∧ 0 < k then utf8ToUtf8F (xs.drop k) (len - k) (out.appendList (xs.take k)) ret
+      else .lenWrap
+    else
+      match (if r = -3 ∧ isSurrogate (uc.getD 0) then cesu8ToUnicode xs len else Dec.ret r uc) with
+      | .oob => .oob
+      | .ret n uc =>
+        let ret := if n < 0 then -1 else ret
+        let k := n.natAbs
+        if k = 0 then .hang
+        else if k ≤ len then utf8ToUtf8F (xs.drop k) (len - k) (out.appendList (unicodeToUtf8 4 (uc.getD 0))) ret
+        else .lenWrap
+
+def runU8U8 (xs : List Nat) (len : Nat) : Conv :=
+  pick len (fun _ => utf8ToUtf8 xs len) (fun _ => utf8ToUtf8F xs len #[] 0) .hang
+
+/-- twin of `bestEffortToUtf16` (one `ensure`, then two bytes per source byte) -/
+def bestEffortToUtf16F (be : Bool) (as : AStr) (xs : List Nat) (length : Nat) : AppRes :=
+  if xs.length < length then bestEffortToUtf16 be as xs length else
+  let e := ensure as (as.data.length + (length + 1) * 2)
+  let (out, ret) := (xs.take length).foldl (fun (acc : Array Nat × Int) b =>
+    if b > 127 then (acc.1.appendList (enc16 be (unicodeRChar % 65536)), -1) else (acc.1.appendList (enc16 be (b % 65536)), acc.2))
+    (as.data.toArray, 0)
+  .ok ret { e with data := out.toList }
+
+def runBto (be : Bool) (as : AStr) (xs : List Nat) (length : Nat) : AppRes :=
+  pick (length + as.data.length / 8) (fun _ => bestEffortToUtf16 be as xs length) (fun _ => bestEffortToUtf16F be as xs length) .lenWrap
+
+partial def bestEffortFromUtf16LoopF (be : Bool) (xs : List Nat) (bytes : Nat) (cap : Nat) (out : Array Nat) (ret : Int) :
+    Option (Int × Array Nat) :=
+  match utf16ToUnicode be xs bytes with
+  | .oob => none
+  | .ret n uc =>
+    if n = 0 then (if cap ≤ out.size then none else some (ret, out))
+    else
+      let ret := if n < 0 then -1 else ret
+      let k := n.natAbs
+      if k ≤ bytes ∧ 0 < k then
+        let (c, ret) := if uc.getD 0 > 127 then (63, (-1 : Int)) else (uc.getD 0, ret)
+        if cap ≤ out.size then none
+        else bestEffortFromUtf16LoopF be (xs.drop k) (bytes - k) cap (out.push c) ret
+      else none
+
+def bestEffortFromUtf16F (be : Bool) (as : AStr) (xs : List Nat) (bytes : Nat) : AppRes :=
+  let e := ensure as (as.data.length + bytes + 1)
+  match bestEffortFromUtf16LoopF be xs bytes e.cap as.data.toArray 0 with
+  | some (r, out) => .ok r { e with data := out.toList }
+  | none => bestEffortFromUtf16 be as xs bytes
+
+def runBfrom (be : Bool) (as : AStr) (xs : List Nat) (bytes : Nat) : AppRes :=
+  pick (bytes + as.data.length / 8) (fun _ => bestEffortFromUtf16 be as xs bytes) (fun _ => bestEffortFromUtf16F be as xs bytes) .lenWrap
 
 def mkAs (cap : Nat) (pre : List Nat) : Option AStr :=
   if cap = 0 then (if pre.isEmpty then some {} else none)
@@ -40,8 +201,6 @@ def mkAs (cap : Nat) (pre : List Nat) : Option AStr :=
   else some { alloc := true, cap := cap, data := pre }
 
 /-! digests of the in-process enumerations (same mixing as the harness) -/
-
-@[inline] def mix (dg : UInt64) (v : Nat) : UInt64 := (dg ^^^ UInt64.ofNat v) * 1099511628211
 
 def sentinel : Nat := 0xAAAAAAAA
 
@@ -82,10 +241,6 @@ def enumBytes (al : Array Nat) (k : Nat) : Nat → Nat → UInt64 → UInt64
     let dg := mixDec (mixDec dg (utf16ToUnicode true s k)) (utf16ToUnicode false s k)
     enumBytes al k cnt (i + 1) dg
 
-def hex16 (v : UInt64) : String :=
-  let s := hexNat v.toNat
-  String.ofList (List.replicate (16 - s.length) '0') ++ s
-
 /-! public conversion objects in a UTF-8 locale (`archive_strncpy_l`) -/
 
 /-- Which flag word `create_sconv_object` builds for `to_charset` / `from_charset`
@@ -107,19 +262,22 @@ def isDecomposableBlock (uc : Nat) : Bool := decomposableBlocks.getD (uc / 256) 
 * from UTF-8 / UTF-16xx: `archive_string_normalize_C`, which equals the plain transcoding on
   input without code points from decomposable blocks (the generator stays inside that domain;
   NFC composition itself is not modelled). -/
-def convModel (dir cs : String) (xs : List Nat) : String :=
+def convModel (dir cs : String) (pre xs : List Nat) : String :=
   let n := xs.length
+  let withPre (c : Conv) : Conv := match c with | .ok r out => .ok r (pre ++ out) | c => c
   match dir, cs with
-  | "to", "UTF-8" => showConv (utf8ToUtf8 xs (mbsnbytes xs n))
+  | "to", "UTF-8" => showConv (withPre (runU8U8 xs (mbsnbytes xs n)))
   | "to", _ =>
     match charsetBits cs true with
     | none => "no-conv"
     | some b =>
       let flag := b + 2 ^ bitFromUtf8
       let len := mbsnbytes xs n
-      if len = 0 then "r=0 out=-" else
-      match appendUnicode flag {} xs len with
-      | .ok r as => s!"r={r} out={LA.toHex as.data}"
+      if len = 0 then s!"r=0 out={showBytes pre}" else
+      -- the destination as archive_strncat left it: one `ensure(length + 1)` from an empty string
+      let as0 : AStr := if pre.isEmpty then {} else { ensure {} (pre.length + 1) with data := pre }
+      match runAppend flag as0 xs len with
+      | .ok r as => s!"r={r} out={showBytes as.data}"
       | r => showApp r
   | "from", _ =>
     match charsetBits cs false with
@@ -127,8 +285,8 @@ def convModel (dir cs : String) (xs : List Nat) : String :=
     | some b =>
       let fe := fromEnc b
       let len := if fe = .utf8 then mbsnbytes xs n else utf16nbytes xs n
-      if len = 0 then "r=0 out=-" else
-      showConv (transcode fe .utf8 xs len [] 0)
+      if len = 0 then s!"r=0 out={showBytes pre}" else
+      showConv (withPre (runTranscode fe .utf8 xs len))
   | _, _ => "bad-op"
 
 /-! `archive_mstring` views, locale C.UTF-8.  What glibc's `mbrtowc` / `wcrtomb` do there is an
@@ -155,61 +313,104 @@ def libcMbrtowc (xs : List Nat) (len : Nat) : Option (Nat × Nat) :=
     if v < mn ∨ isSurrogate v then none else some (k, v)
 
 /-- `archive_wstring_append_from_mbs` over that `mbrtowc`. -/
-def libcMbsToWcs (xs : List Nat) (len : Nat) (acc : List Nat) : Option (List Nat) :=
-  if len = 0 then some acc else
+partial def libcMbsToWcs (xs : List Nat) (len : Nat) (acc : Array Nat) : Option (List Nat) :=
+  if len = 0 then some acc.toList else
   match xs[0]? with
-  | none => some acc
-  | some 0 => some acc
+  | none => some acc.toList
+  | some 0 => some acc.toList
   | some _ =>
     match libcMbrtowc xs len with
     | some (k, v) =>
-      if _h : 0 < k ∧ k ≤ len then libcMbsToWcs (xs.drop k) (len - k) (acc ++ [v]) else none
+      if 0 < k ∧ k ≤ len then libcMbsToWcs (xs.drop k) (len - k) (acc.push v) else none
     | none => none
-termination_by len
-decreasing_by omega
 
 def isScalarB (c : Nat) : Bool := c ≤ unicodeMax && !isSurrogate c
 
 /-- `archive_string_append_from_wcs` over glibc `wcrtomb`: `?` and -1 for a surrogate
 (the generator stays at or below U+10FFFF). -/
 def libcWcsToMbs (ws : List Nat) : Int × List Nat :=
-  ws.foldl (fun (r, out) c => if isSurrogate c then (-1, out ++ [63]) else (r, out ++ unicodeToUtf8 4 c)) (0, [])
+  let (r, out) := ws.foldl (fun (acc : Int × Array Nat) c =>
+    if isSurrogate c then (-1, acc.2.push 63) else (acc.1, acc.2.appendList (unicodeToUtf8 4 c))) (0, #[])
+  (r, out.toList)
+
+/-- `strncat_from_utf8_libarchive2(as, p, len, sc)` with its buffer: `_utf8_to_unicode`, then glibc `wcrtomb`
+(refuses surrogates: the function returns -1 at once, `as->length` staying where the last re-allocation put it);
+what does not decode becomes `?`.  `MB_CUR_MAX` is 6 in C.UTF-8.  State: `cap`, `lenSet` = `as->length`,
+`out` = bytes up to `p`.  `none`: a read or store outside the blocks. -/
+partial def la2Loop (xs : List Nat) (len : Nat) (alloc : Bool) (cap lenSet : Nat) (out : Array Nat) :
+    Option (Int × Nat × List Nat) :=
+  match utf8Raw xs len with
+  | .oob => none
+  | .ret n uc =>
+    if n = 0 then (if out.size < cap then some (0, cap, out.toList) else none)
+    else
+      -- `if (p >= end)`: end = s + buffer_length - MB_CUR_MAX - 1
+      let (cap, lenSet) :=
+        if (out.size : Int) ≥ (cap : Int) - 7 then
+          ((ensure ⟨alloc, cap, []⟩ (out.size + (if len * 2 > 6 then len * 2 else 6) + 1)).cap, out.size)
+        else (cap, lenSet)
+      let k := n.natAbs
+      if k > len then none
+      else
+        let bs := if n < 0 then some [63] else if isSurrogate (uc.getD 0) then none else some (unicodeToUtf8 4 (uc.getD 0))
+        match bs with
+        | none => some (-1, cap, out.toList.take lenSet)
+        | some bs =>
+          if out.size + bs.length > cap then none
+          else la2Loop (xs.drop k) (len - k) true cap lenSet (out.appendList bs)
+
+def la2Model (pre xs : List Nat) : String :=
+  -- the destination as archive_strncat left it, then `archive_string_ensure(as, as->length + len + 1)`
+  let as0 : AStr := if pre.isEmpty then {} else { ensure {} (pre.length + 1) with data := pre }
+  let e := ensure as0 (pre.length + xs.length + 1)
+  match la2Loop xs xs.length true e.cap pre.length pre.toArray with
+  | none => "oob"
+  | some (r, _, out) => s!"r={r} out={showBytes out}"
 
 def showBytesView (k : String) (r : Int) (p : Option (List Nat)) : String :=
-  s!"{k}={r}:" ++ (match p with | none => "null" | some b => LA.toHex b)
+  s!"{k}={r}:" ++ (match p with | none => "null" | some b => showBytes b)
 
 def showWcsView (r : Int) (p : Option (List Nat)) : String :=
   s!"w={r}:" ++ (match p with
     | none => "null"
     | some [] => "-"
-    | some ws => ",".intercalate (ws.map hexNat))
+    | some ws =>
+      if ws.length ≤ 512 then ",".intercalate (ws.map hexNat)
+      else
+        let dg := ws.foldl (fun d v => mix (mix (mix (mix d (v / 16777216 % 256)) (v / 65536 % 256)) (v / 256 % 256)) (v % 256))
+          14695981039346656037
+        s!"#{ws.length}:" ++ hex16 dg)
 
 def takeUntilZero (xs : List Nat) : List Nat := xs.takeWhile (· ≠ 0)
 
-def be32 : List Nat → List Nat
-  | a :: b :: c :: d :: r => (((a * 256 + b) * 256 + c) * 256 + d) :: be32 r
-  | _ => []
+def be32 (xs : List Nat) : List Nat :=
+  let rec go : List Nat → Array Nat → List Nat
+    | a :: b :: c :: d :: r, acc => go r (acc.push ((((a * 256 + b) * 256 + c) * 256 + d)))
+    | _, acc => acc.toList
+  go xs #[]
+
+/-- views of an `archive_mstring` whose MBS form `m` is set (and nothing else) -/
+def viewsOfMbs (m : List Nat) : String :=
+  let u := match runU8U8 m m.length with
+    | .ok 0 out => showBytesView "u" 0 (some out)
+    | _ => showBytesView "u" (-1) none
+  let w := match libcMbsToWcs m m.length #[] with
+    | some ws => showWcsView 0 (some ws)
+    | none => showWcsView (-1) none
+  showBytesView "m" 0 (some m) ++ " " ++ u ++ " " ++ w
 
 def msModel (kind : String) (xs : List Nat) : String :=
   match kind with
-  | "mbs" =>
-    let m := takeUntilZero xs
-    let u := match utf8ToUtf8 m m.length with
-      | .ok 0 out => showBytesView "u" 0 (some out)
-      | _ => showBytesView "u" (-1) none
-    let w := match libcMbsToWcs m m.length [] with
-      | some ws => showWcsView 0 (some ws)
-      | none => showWcsView (-1) none
-    showBytesView "m" 0 (some m) ++ " " ++ u ++ " " ++ w
+  | "mbs" => viewsOfMbs (takeUntilZero xs)
   | "utf8" =>
     let u := takeUntilZero xs
     -- get_mbs: from_charset("UTF-8") = normalize_C (see convModel); the pointer is set even on failure
-    let (mr, mb) := match transcode .utf8 .utf8 u u.length [] 0 with
+    let (mr, mb) := match runTranscode .utf8 .utf8 u u.length with
       | .ok r out => (r, out)
       | _ => ((-2 : Int), [])
     let mbs := if u.isEmpty then (0, []) else (mr, mb)
     let w := if mbs.1 = 0 then
-        match libcMbsToWcs mbs.2 mbs.2.length [] with
+        match libcMbsToWcs mbs.2 mbs.2.length #[] with
         | some ws => showWcsView 0 (some ws)
         | none => showWcsView (-1) none
       else showWcsView 0 none
@@ -218,20 +419,51 @@ def msModel (kind : String) (xs : List Nat) : String :=
     let ws := takeUntilZero (be32 xs)
     let (mr, mb) := libcWcsToMbs ws
     let u := if mr = 0 then
-        match utf8ToUtf8 mb mb.length with
+        match runU8U8 mb mb.length with
         | .ok 0 out => showBytesView "u" 0 (some out)
         | _ => showBytesView "u" (-1) none
       else showBytesView "u" 0 none
     showBytesView "m" mr (some mb) ++ " " ++ u ++ " " ++ showWcsView 0 (some ws)
   | _ => "bad-op"
 
+/-- `archive_mstring_copy_mbs_len_l(aes, mbs, len, sc)` with `sc = from_charset(cs)` in a UTF-8 locale,
+then the three views: the MBS form is the conversion result; when the conversion reports a failure
+nothing is set and every view is NULL with return value 0. -/
+def mslModel (cs : String) (xs : List Nat) : String :=
+  match charsetBits cs false with
+  | none => "bad-op"
+  | some b =>
+    let fe := fromEnc b
+    let len := if fe = .utf8 then mbsnbytes xs xs.length else utf16nbytes xs xs.length
+    let (r, m) := if len = 0 then ((0 : Int), ([] : List Nat)) else
+      match runTranscode fe .utf8 xs len with
+      | .ok r out => (r, out)
+      | _ => (-2, [])
+    if r = 0 then s!"c=0 " ++ viewsOfMbs m
+    else s!"c={r} m=0:null u=0:null w=0:null"
+
 def stepLine (_ : Unit) (op obs : String) : Unit × String :=
   let out :=
     match LA.words op with
     | ["u8u8", hx] =>
-      match LA.parseHex hx with
-      | some xs => showConv (utf8ToUtf8 xs xs.length)
+      match parseOperand hx with
+      | some xs => showConv (runU8U8 xs xs.length)
       | none => "bad-op"
+    | ["la2", hx] =>
+      match parseOperand hx with
+      | some xs => la2Model [] xs
+      | none => "bad-op"
+    | ["la2", hx, pl] =>
+      match parseOperand hx, pl.toNat? with
+      | some xs, some p => la2Model ((List.range p).map (fun i => 97 + i % 26)) xs
+      | _, _ => "bad-op"
+    | ["u8u8", hx, pl] =>
+      match parseOperand hx, pl.toNat? with
+      | some xs, some p =>
+        match runU8U8 xs xs.length with
+        | .ok r out => showConv (.ok r ((List.range p).map (fun i => 97 + i % 26) ++ out))
+        | c => showConv c
+      | _, _ => "bad-op"
     | [d, hx] =>
       match decByName d, LA.parseHex hx with
       | some f, some xs => showDec (f xs xs.length)
@@ -249,8 +481,20 @@ def stepLine (_ : Unit) (op obs : String) : Unit × String :=
       | _, _ => "bad-op"
     | ["rt", _, _] => obs     -- iconv round trip: a test judged by the oracle, not modelled
     | ["ms", kind, hx] =>
-      match LA.parseHex hx with
+      match parseOperand hx with
       | some xs => msModel kind xs
+      | none => "bad-op"
+    | ["ms", kind, hx, _] =>
+      match parseOperand hx with
+      | some xs => msModel kind xs
+      | none => "bad-op"
+    | ["msl", cs, hx] =>
+      match parseOperand hx with
+      | some xs => mslModel cs xs
+      | none => "bad-op"
+    | ["msl", cs, hx, _] =>
+      match parseOperand hx with
+      | some xs => mslModel cs xs
       | none => "bad-op"
     | [e, ucs, rs] =>
       match parseHexNat ucs, rs.toNat? with
@@ -260,11 +504,19 @@ def stepLine (_ : Unit) (op obs : String) : Unit × String :=
           s!"w={bs.length} out={LA.toHex bs}"
         else "bad-op"
       | _, _ => "bad-op"
+    | ["conv", dir, cs, hx] =>
+      match parseOperand hx with
+      | some xs => convModel dir cs [] xs
+      | none => "bad-op"
+    | ["conv", dir, cs, hx, pl] =>
+      match parseOperand hx, pl.toNat? with
+      | some xs, some p => convModel dir cs ((List.range p).map (fun i => 97 + i % 26)) xs
+      | _, _ => "bad-op"
     | ["app", fl, cap, pre, sx] =>
-      match fl.toNat?, cap.toNat?, LA.parseHex pre, LA.parseHex sx with
+      match fl.toNat?, cap.toNat?, parseOperand pre, parseOperand sx with
       | some flag, some cap, some pre, some xs =>
         match mkAs cap pre with
-        | some as => showApp (appendUnicode flag as xs xs.length)
+        | some as => showApp (runAppend flag as xs xs.length)
         | none => "bad-op"
       | _, _, _, _ => "bad-op"
     | ["enumb", als, ks, los, his] =>
@@ -274,20 +526,16 @@ def stepLine (_ : Unit) (op obs : String) : Unit × String :=
         else "digest=" ++ hex16 (enumBytes al.toArray k (hi - lo) lo 14695981039346656037)
       | _, _, _, _ => "bad-op"
     | [b, be, cap, pre, sx] =>
-      match be.toNat?, cap.toNat?, LA.parseHex pre, LA.parseHex sx with
+      match be.toNat?, cap.toNat?, parseOperand pre, parseOperand sx with
       | some be, some cap, some pre, some xs =>
         if b = "bto" ∨ b = "bfrom" then
           match mkAs cap pre with
           | some as =>
-            if b = "bto" then showApp (bestEffortToUtf16 (be != 0) as xs xs.length)
-            else showApp (bestEffortFromUtf16 (be != 0) as xs xs.length)
+            if b = "bto" then showApp (runBto (be != 0) as xs xs.length)
+            else showApp (runBfrom (be != 0) as xs xs.length)
           | none => "bad-op"
         else "bad-op"
       | _, _, _, _ => "bad-op"
-    | ["conv", dir, cs, hx] =>
-      match LA.parseHex hx with
-      | some xs => convModel dir cs xs
-      | none => "bad-op"
     | _ => "bad-op"
   ((), out)
 
